@@ -301,7 +301,7 @@ impl<'a> G<'a> {
     }
     fn list_shape(&mut self) {
         let g = self.graph();
-        let len = self.r.range(1, 3);
+        let len = if self.r.chance(1, 15) { self.tag("long list"); self.r.range(6, 12) } else { self.r.range(1, 3) };
         let variant = self.r.below(20);
         let typed = variant == 5;
         let head = self.chain(&g, len, 1, typed);
@@ -386,6 +386,25 @@ impl<'a> G<'a> {
 }
 fn shuffle<T>(v: &mut Vec<T>, r: &mut Rng) { for i in (1..v.len()).rev() { let j = r.below(i + 1); v.swap(i, j); } }
 
+/// the replayed defect witnesses (DESIGN section 4 rows 11, 12 and the ones found while building), always cases 0..
+fn witness_case(idx: usize) -> Option<(Vec<Q>, Vec<String>, Opts)> {
+    let o = Opts { mode10: false, use_rdf_type: false, dir: 0, spaces: 0 };
+    let (b, c, n) = (bnode("b"), bnode("c"), None::<ST>);
+    let q = |s: &ST, p: &ST, o: &ST, g: &Option<ST>| -> Q { ([s.clone(), p.clone(), o.clone()], g.clone()) };
+    let cell = |g: &Option<ST>| vec![q(&b, &rdf("first"), &plain("a"), g), q(&b, &rdf("rest"), &rdf("nil"), g)];
+    let g2 = Some(ex("g2"));
+    Some(match idx {
+        0 => (cell(&n), vec!["WITNESS row 11: list cell that is never an object".into()], o),
+        1 => ([cell(&n), vec![q(&ex("s"), &ex("p"), &b, &n), q(&b, &ex("q"), &ex("a"), &g2)]].concat(), vec!["WITNESS row 12: list cell that is also a subject in another graph".into()], o),
+        2 => ([cell(&g2), vec![q(&ex("s"), &ex("p"), &b, &g2), q(&ex("a"), &ex("q"), &ex("a"), &Some(b.clone()))]].concat(), vec!["WITNESS: list cell that is also a graph name".into()], o),
+        3 => (vec![q(&b, &rdf("first"), &c, &n), q(&b, &rdf("rest"), &rdf("nil"), &n), q(&c, &rdf("first"), &plain("a"), &n), q(&c, &rdf("rest"), &b, &n)], vec!["WITNESS: list that is its own item (1.1)".into()], o),
+        4 => ([cell(&n), vec![q(&b, &rdf("type"), &rdf("List"), &n), q(&ex("s"), &ex("p"), &b, &n)]].concat(), vec!["WITNESS: cell typed rdf:List".into()], o),
+        5 => (vec![q(&b, &rdf("value"), &plain("x"), &n), q(&b, &rdf("direction"), &plain("ltr"), &n)], vec!["WITNESS: compound literal that nothing references".into()], Opts { dir: 2, ..o }),
+        6 => (vec![q(&ex("s"), &ex("p"), &lit_dt("x", &format!("{I18N}en")), &n)], vec!["WITNESS: i18n datatype without direction".into()], Opts { dir: 1, ..o }),
+        _ => return None,
+    })
+}
+
 fn gen_case(r: &mut Rng, single: bool) -> (Vec<Q>, Vec<String>, Opts) {
     let opts = Opts { mode10: r.chance(1, 3), use_rdf_type: r.chance(1, 3), dir: [0, 0, 1, 2, 2][r.below(5)], spaces: if r.chance(1, 3) { 2 } else { 0 } };
     let mut g = G { r, q: vec![], tags: vec![], nb: 0 };
@@ -447,11 +466,24 @@ impl Intern {
 fn coq_quad(i: &mut Intern, q: &Q) -> String { format!("mkQ {} {} {} {}", i.id(&q.0[0]), i.id(&q.0[1]), i.id(&q.0[2]), coq_opt(q.1.as_ref().map(|g| i.id(g).to_string()))) }
 fn canon_obj(j: &J) -> String { canon_json(j) }
 /// value object of each literal of the dataset, obtained from the implementation itself on a one-quad dataset
-fn literal_objects(quads: &[Q], o: &Opts, i: &mut Intern) -> Vec<(String, u64)> {
+fn literal_objects(quads: &[Q], o: &Opts, i: &mut Intern, i18n: &mut Vec<String>) -> Vec<(String, u64)> {
     let mut out = vec![]; let mut seen = BTreeSet::new();
     for q in quads { if !expressible(q) { continue; } let l = &q.0[2]; if !matches!(l, SimpleTerm::LiteralDatatype(..) | SimpleTerm::LiteralLanguage(..)) || !seen.insert(show_t(l)) { continue; }
         let one: Vec<Q> = vec![([ex("s"), ex("p"), l.clone()], None)];
-        if let Ok(txt) = serialise(&one, o) { if let Ok(j) = read_json(&txt) { if let Some(v) = j.arr().ok().and_then(|a| a.first()).and_then(|n| n.get("http://e/p")).and_then(|v| v.arr().ok()).and_then(|a| a.first()) { out.push((canon_obj(v), i.id(l))); } } } }
+        if let Ok(txt) = serialise(&one, o) { if let Ok(j) = read_json(&txt) { if let Some(v) = j.arr().ok().and_then(|a| a.first()).and_then(|n| n.get("http://e/p")).and_then(|v| v.arr().ok()).and_then(|a| a.first()) {
+            out.push((canon_obj(v), i.id(l)));
+            // literal level: the i18n-datatype shortcut, against Model.i18n_value
+            if let (1, SimpleTerm::LiteralDatatype(_, dt)) = (o.dir, l) { if let Some(suffix) = dt.as_str().strip_prefix(I18N) {
+                let tag = suffix.split('_').next().unwrap_or("");
+                let wf = sophia_api::term::LanguageTag::new(tag).is_ok();
+                let gs = |k: &str| v.get(k).and_then(|x| x.str().ok()).map(|x| x.to_string());
+                let observed = match (gs("@type"), gs("@language"), gs("@direction")) {
+                    (Some(t), None, None) => format!("VTyped {}", coq_str(t.strip_prefix(I18N).unwrap_or(&t))),
+                    (_, lang, dirn) => format!("VDir {} {}", coq_opt(lang.map(|x| coq_str(&x))), coq_str(&dirn.unwrap_or_default())),
+                };
+                i18n.push(format!("i18n_ok {} {} ({observed})", coq_bool(wf), coq_str(suffix)));
+            } }
+        } } } }
     out
 }
 fn coq_val(v: &J, lits: &[(String, u64)], i: &mut Intern) -> Result<String, String> {
@@ -500,9 +532,16 @@ fn main() {
     let range: Vec<usize> = match a.only { Some(i) => vec![i], None => (0..a.n).collect() };
     let mut by_tag: BTreeMap<String, (u64, u64)> = BTreeMap::new();
     let mut cases = vec![]; let mut seen = BTreeSet::new();
+    // every option setter must leave the other options alone (the options are part of the property's quantifier)
+    if a.only.is_none() {
+        for flag in [false, true] {
+            let o = JsonLdOptions::new().with_use_rdf_type(flag).with_use_native_types(!flag).with_default_document_loader::<sophia_jsonld::loader::NoLoader>();
+            if o.use_rdf_type() != flag { sum.oracle_failures.push(("options".into(), format!("OPTIONS: JsonLdOptions::new().with_use_rdf_type({flag}).with_use_native_types({}).with_default_document_loader() has use_rdf_type() == {} (every with_*document_loader* builder copies use_native_types into use_rdf_type)", !flag, o.use_rdf_type()))); }
+        }
+    }
     for idx in range {
         let mut r = base.fork(idx as u64);
-        let (quads, tags, opts) = gen_case(&mut r, single);
+        let (quads, tags, opts) = witness_case(idx).unwrap_or_else(|| gen_case(&mut r, single));
         let ser = serialise(&quads, &opts);
         let res = oracle(&quads, &opts, &ser);
         sum.evaluations += 1;
@@ -522,11 +561,12 @@ fn main() {
         // Coq case
         let mut it = Intern::new();
         let cq = coq_list(quads.iter().map(|q| coq_quad(&mut it, q)));
-        let lits = literal_objects(&quads, &opts, &mut it);
+        let mut i18n = vec![];
+        let lits = literal_objects(&quads, &opts, &mut it, &mut i18n);
         let observed = match &ser { Ok(txt) => read_json(txt).and_then(|j| coq_doc(&j, &lits, &mut it)), Err(e) => Err(e.clone()) };
         let copts = format!("(mkOpts {} {} {})", coq_bool(opts.mode10), coq_bool(opts.use_rdf_type), coq_bool(opts.dir == 2));
         let body = match &observed {
-            Ok(doc) => format!("let t := {} in let d := {cq} in c12_ok t {copts} d {doc} && roundtrip_ok t {copts} d 1000", it.table()),
+            Ok(doc) => format!("let t := {} in let d := {cq} in c12_ok t {copts} d {doc} && roundtrip_ok t {copts} d 1000{}", it.table(), i18n.iter().map(|x| format!(" && {x}")).collect::<String>()),
             Err(e) => format!("false (* no document to compare: {} *)", e.replace("*)", "* )").replace("(*", "( *")),
         };
         if a.only.is_some() { println!("CASE {idx}: {tags:?} {} :: {}\n => oracle {:?}\n{}\nCoq: {body}", opts.show(), show_ds(&quads), res, ser.clone().unwrap_or_else(|e| e)); }
